@@ -348,6 +348,17 @@ def _subsets(n):
             yield list(c)
 
 
+def _spike_requests(n):
+    """Every increasing subset, plus (seeded change C06d: a row mask instead of row positions is only wrong for a request
+    that is not increasing) its reversal and one rotation: "any spikes" of the statement, distinct ids in any order."""
+    for c in _subsets(n):
+        yield c
+        if len(c) >= 2:
+            yield c[::-1]
+        if len(c) >= 3:
+            yield c[1:] + c[:1]
+
+
 def enumerate_cases(ctx):
     quick = ctx.tier == 'quick'
     rs = np.random.RandomState(ctx.seed)
@@ -424,13 +435,13 @@ def enumerate_cases(ctx):
     rowtabs = [None] + [r for r in _subsets(4) if r]
     ctx.scope('get_features: 4 spikes, 3 templates x 2 local columns, %d template assignments, column tables (3 sparse '
               'incl. -1 entries, 1 absent), row table absent or any non-empty subset of the spikes, requests = every '
-              'increasing subset of the spikes (incl. empty, incl. non-stored spikes) x %d channel lists (permutations, '
+              'increasing subset of the spikes (incl. empty, incl. non-stored spikes) and, for 2+ spikes, its reversal and a rotation x %d channel lists (permutations, '
               'unknown channel, empty), 1-2 components, int32/int64/uint32 tables' % (len(sts), len(chs)))
     n = 0
     for st in sts:
         for ti, tab in enumerate(coltabs):
             for rt in rowtabs:
-                for spikes in _subsets(4):
+                for spikes in _spike_requests(4):
                     for ci, ch in enumerate(chs):
                         n += 1
                         if quick and n % 4:
@@ -525,7 +536,7 @@ def enumerate_cases(ctx):
             spikes = sorted(int(x) for x in rs.permutation(nsp)[:int(rs.randint(0, nsp + 1))])
             ch = [int(x) for x in rs.permutation(nch + 2)[:int(rs.randint(0, nch + 1))]]
             ctx.run('features', {'st': st, 'nloc': nloc, 'npcs': 1 + i % 3, 'cols': tab if i % 7 else None, 'rows': rt,
-                                 'spikes': spikes, 'ch': ch})
+                                 'spikes': spikes[::-1] if i % 3 == 0 else spikes, 'ch': ch})
             ntl = min(nloc, nt)
             ttab = [[int(x) for x in rs.permutation(nt)[:ntl]] for t in range(nt)]
             ctx.run('template_features', {'st': st, 'nloc': ntl, 'nt': nt, 'cols': ttab, 'rows': rt, 'spikes': spikes})
